@@ -36,6 +36,7 @@ Replay(fs, evs, k) ==
     IF k > Len(evs) THEN fs
     ELSE LET ev == evs[k]
          IN  IF ev.ev = "addr" THEN Replay([fs EXCEPT !.regs = Append(fs.regs, ev.reg)], evs, k + 1)
+             ELSE IF ev.ev = "regs" THEN Replay([fs EXCEPT !.regs = ev.rl], evs, k + 1)
              ELSE IF ev.ev = "g" /\ ev.hascode /\ ev.res # "exc" /\ Applicable(fs, ev.in)
                   THEN Replay([HandleGcode(fs, ev.in).fs EXCEPT !.zt = 0, !.et = 0], evs, k + 1)
              ELSE IF ev.ev = "at"
